@@ -95,6 +95,15 @@ def build_generator(job):
     grids = CiderGrids(mol, lmax=job["lmax"])
     grids.atom_grid = tuple(job["atom_grid"])
     grids.build()
+    if job.get("prune_thr"):
+        # density pruning (pyscf small_rho_cutoff): the sorted grid becomes a STRICT subset of the atom-ordered grid, so the
+        # scatter/gather through idx_map leaves atom-ordered rows that no sorted point maps to
+        ao0 = pni.eval_ao(mol, grids.coords, deriv=0)
+        rho0 = pni.eval_rho(mol, ao0, 2 * M.core_dm(mol), xctype="LDA")
+        n_before = grids.grids_indexer.idx_map.size
+        grids.prune_by_density_(rho0, job["prune_thr"])
+        if not grids.grids_indexer.idx_map.size < n_before:
+            raise RuntimeError("density pruning removed no point (threshold %g)" % job["prune_thr"])
     nl = M.nldf_settings(job["ver"], job["level"], "one", rich=job["rich"])
     init = PySCFNLDFInitializer(nl, plan_type=job["plan"], interpolator_type=job["interp"], aux_lambd=job.get("lambd", 1.8))
     gen = init.initialize_nldf_generator(mol, grids.grids_indexer, 1)
@@ -274,7 +283,8 @@ def main():
         for interp in ("onsite_direct", "onsite_spline", "train_gen"):
             for mi, (mol, ag) in enumerate(mols):
                 jobs.append({"id": k, "ver": ver, "level": "MGGA" if k % 3 else "GGA", "plan": "gaussian" if k % 2 else "spline", "interp": interp,
-                             "mol": mol, "atom_grid": ag, "lmax": (10, 6, 3, 8)[k % 4], "rich": ver in ("i", "j") and k % 2 == 0, "seed": ck.seed + k})
+                             "mol": mol, "atom_grid": ag, "lmax": (10, 6, 3, 8)[k % 4], "rich": ver in ("i", "j") and k % 2 == 0, "seed": ck.seed + k,
+                             "prune_thr": (0, 1e-3, 0, 1e-1, 1e-2)[k % 5]})
                 k += 1
     for mname, basis in (("H2O", "sto-3g"), ("H2O", "cc-pvdz"), ("HF", "6-31g*"), ("H2", "aug-cc-pvdz")):
         jobs.append({"id": k, "sdmx": True, "mol": mname, "basis": basis, "seed": ck.seed + k})
